@@ -295,7 +295,7 @@ func (e *c10env) ops() []c10op {
 		}},
 		{"WithTimeFormat", func(e *c10env, t *mnode) (*mnode, *slog.Entry, bool) {
 			l := gen.Pick(r, layouts)
-			ent := t.e.WithTimeFormat(l)
+			ent := t.e.WithTimeFormat(tfArgs(r, l, layouts)...)
 			n := e.withChild(t, ent)
 			n.layout = l
 			return n, ent, false
@@ -430,7 +430,7 @@ func (e *c10env) ops() []c10op {
 		}},
 		{"SetTimeFormat", func(e *c10env, t *mnode) (*mnode, *slog.Entry, bool) {
 			l := gen.Pick(r, layouts)
-			ent := t.e.SetTimeFormat(l)
+			ent := t.e.SetTimeFormat(tfArgs(r, l, layouts)...)
 			t.layout = l
 			return nil, ent, true
 		}},
@@ -488,6 +488,22 @@ func (e *c10env) ops() []c10op {
 			return nil, t.e, true
 		}},
 	}
+}
+
+// tfArgs spells "the layout l" as an argument list of the time-format calls: the list may hold several layouts and
+// empty strings; the last non-empty one is the layout (an empty string never is).
+func tfArgs(r *gen.R, l string, layouts []string) []string {
+	switch r.Intn(6) {
+	case 0:
+		return []string{gen.Pick(r, layouts), l}
+	case 1:
+		return []string{l, ""}
+	case 2:
+		return []string{"", l}
+	case 3:
+		return []string{gen.Pick(r, layouts), "", l, ""}
+	}
+	return []string{l}
 }
 
 func (n *mnode) expTime() string {
